@@ -25,6 +25,13 @@ var Properties = map[string]func(*Ctx){
 	"C02": C02,
 	"C08": C08,
 	"C10": C10,
+	"C03": C03,
+}
+
+func C03(c *Ctx) {
+	R2Model(c)
+	R2GuardRead(c, "C03")
+	R2Identity(c)
 }
 
 func C10(c *Ctx) {
